@@ -503,10 +503,34 @@ func c13PendingTotal(c *engine.Ctx, rule string) {
 						base = fa.X
 					}
 					if al, isAl := base.(*ssa.Alloc); isAl {
+						// ... also when the struct reached this local through whole-struct copies of other locals
+						found := false
+						locals := map[*ssa.Alloc]bool{}
+						var gather func(x *ssa.Alloc, d int)
+						gather = func(x *ssa.Alloc, d int) {
+							if locals[x] || d > 6 {
+								return
+							}
+							locals[x] = true
+							for _, r := range *x.Referrers() {
+								if ws, ok := r.(*ssa.Store); ok && ws.Addr == ssa.Value(x) {
+									if u, ok := engine.Strip(ws.Val).(*ssa.UnOp); ok && u.Op == token.MUL {
+										if src, ok := u.X.(*ssa.Alloc); ok {
+											gather(src, d+1)
+										}
+									}
+								}
+							}
+						}
+						gather(al, 0)
 						for _, st2 := range engine.StoresTo([]*ssa.Function{f}, fl) {
-							if root := st2.Addr.(*ssa.FieldAddr).X; root == ssa.Value(al) {
+							if root, ok := st2.Addr.(*ssa.FieldAddr).X.(*ssa.Alloc); ok && locals[root] {
+								found = true
 								walk(st2.Val)
 							}
+						}
+						if !found {
+							other = v.String() + " (a local struct field never given a value here)"
 						}
 						return
 					}
